@@ -201,7 +201,8 @@ Theorem derive_loop_spec es : forall prim salt s keys s' keys',
     shandles s' = shandles s /\ LInv prim s'.
 Proof.
   induction es as [|e rest IH]; simpl; intros prim salt s keys s' keys' HI H.
-  - inversion H; subst. exists []. rewrite !app_nil_r. repeat split; auto; try constructor. tauto.
+  - inversion H; subst. exists []. rewrite !app_nil_r. destruct HI as [I1 I2].
+    repeat split; auto; try constructor; tauto.
   - destruct (derive_key hmac edpub (d_key e) (d_id e) salt) as [dk|] eqn:DK; [|discriminate].
     destruct (add_derived s (d_id e) (r_req dk) (N.of_nat (length keys))) as [s1|] eqn:AD; [|discriminate].
     apply add_derived_spec in AD. destruct AD as (Hn & Hr & He & Hu & Hh).
@@ -229,7 +230,7 @@ Proof.
         eexists. split; [reflexivity|]. simpl.
         change (d_id e) with (eid x). rewrite set_primary_last by exact Hl.
         repeat split; auto. unfold out_entry. simpl. rewrite EP, N.eqb_refl. reflexivity.
-      - exists s1. repeat split; auto. rewrite He. unfold out_entry. reflexivity. }
+      - exists s1. repeat split; auto. rewrite He. unfold out_entry. rewrite EP. reflexivity. }
     destruct X as (s2 & EQ & E2 & U2 & H2). rewrite EQ in H. clear EQ.
     assert (HI2 : LInv prim s2).
     { split.
@@ -238,6 +239,7 @@ Proof.
       - intros x Hx. rewrite E2 in Hx. apply in_app_iff in Hx.
         destruct Hx as [Hx|[Hx|[]]]; [apply I2; auto | subst; reflexivity]. }
     destruct (IH _ _ _ _ _ _ HI2 H) as (dks & F & K & EE & ND & NU & HH & LI).
+    destruct LI as [L1 L2].
     exists (dk :: dks). repeat split; auto.
     + subst keys'. rewrite <- app_assoc. reflexivity.
     + rewrite EE, E2, <- app_assoc. simpl. rewrite app_length. simpl.
@@ -279,7 +281,7 @@ Proof.
       unfold set_primary_op. simpl. rewrite He.
       change (d_id e) with (eid x) at 1.
       rewrite find_entry_last by (intros y Hy; apply Hl; auto). simpl.
-      apply IH; auto.
+      apply IH; [ | exact ND' | | intros e' He'; apply HL; right; exact He'].
       * split; simpl.
         -- intros y Hy. change (d_id e) with (eid x) in Hy. rewrite set_primary_last in Hy by exact Hl.
            rewrite Hu. apply in_app_iff in Hy. destruct Hy as [Hy|[Hy|[]]]; [right; apply I1; auto | subst; left; reflexivity].
@@ -288,7 +290,7 @@ Proof.
            subst y. simpl. rewrite EP, N.eqb_refl. reflexivity.
       * simpl. rewrite Hu. intros e' Hin [Hc|Hc]; [|apply (NU e' (or_intror Hin) Hc)].
         apply Hnin. apply in_map_iff. exists e'. auto.
-    + apply IH; auto.
+    + apply IH; [ | exact ND' | | intros e' He'; apply HL; right; exact He'].
       * split.
         -- intros y Hy. rewrite He in Hy. rewrite Hu. apply in_app_iff in Hy.
            destruct Hy as [Hy|[Hy|[]]]; [right; apply I1; auto | subst; left; reflexivity].
